@@ -340,6 +340,46 @@ def run_case(ctx, case):
         ctx.count("datasets_in_data_collection")
     if not observe(ctx, rng, d, spec, shape, "initial"):
         return
+    if k % 3 == 2 and size > 0:
+        # ---- the dataset changes SHAPE while keeping the very same coords object: the world attributes were just
+        # read without a view (observe), now the values are refreshed from differently shaped datasets that share the
+        # coordinate object, and everything must follow the new grid (with and without views)
+        cur = shape
+        for step in range(2):
+            kind = rng.choice(["grow", "shrink", "same_shape_refresh", "other_lengths"])
+            if kind == "grow":
+                new_shape = tuple(n + rng.randint(1, 3) for n in cur)
+            elif kind == "shrink":
+                new_shape = tuple(max(1, n - rng.randint(1, 2)) for n in cur)
+            elif kind == "same_shape_refresh":
+                new_shape = cur
+            else:
+                new_shape = tuple(rng.randint(1, max_len + 2) for _ in cur)
+            if shape_class == "large":
+                new_shape = tuple(min(n, 12) for n in new_shape)
+            other = Data(label="d", coords=spec["coords"])
+            other.add_component(np.arange(int(np.prod(new_shape)), dtype=float).reshape(new_shape) + 0.5, "v")
+            # a whole-dataset read right before the change (anything memoised would be taken now)
+            for wc in d.world_component_ids:
+                try:
+                    np.asarray(d[wc])
+                except Exception:
+                    pass
+            try:
+                d.update_values_from_data(other)
+            except Exception as e:   # noqa
+                ctx.violation({"kind": "update_values_from_data_failed", "how": "exception:" + exc_name(e), "change": kind},
+                              {"old_shape": list(cur), "new_shape": list(new_shape), "error": repr(e)[:300]})
+                return
+            ctx.count("shape_changed:" + kind)
+            if tuple(d.shape) != tuple(new_shape) or d.coords is not spec["coords"]:
+                ctx.violation({"kind": "shape_or_coords_not_taken_over", "change": kind},
+                              {"shape": list(d.shape), "expected": list(new_shape)})
+                return
+            if not observe(ctx, rng, d, spec, new_shape, "after_shape_changed:" + kind):
+                return
+            cur = new_shape
+        return
     if k % 3 != 1:
         return
     # ---- the coordinates of the live dataset are replaced
@@ -642,7 +682,9 @@ def floors(counters, tier):
     for mg in MAGNITUDES:
         if counters.get("magnitude:" + mg, 0) < 15:
             out.append("fewer than 15 datasets with magnitude class %s" % mg)
-    for key, lo in (("coords_replaced:other_pattern", 8), ("coords_replaced:near_equal", 8), ("coords_replaced:via_none", 8),
+    for key, lo in (("shape_changed:grow", 15), ("shape_changed:shrink", 15), ("shape_changed:same_shape_refresh", 15),
+                    ("shape_changed:other_lengths", 15), ("world_reads_after_shape_changed", 3000),
+                    ("coords_replaced:other_pattern", 8), ("coords_replaced:near_equal", 8), ("coords_replaced:via_none", 8),
                     ("coords_replaced:equal_but_distinct", 8), ("coords_replaced:to_identity", 8),
                     ("coords_replaced:same_object_again", 8), ("world_reads_after_coords_replaced", 2000),
                     ("shape_class:large", 8), ("shape_class:zero_size", 8), ("datasets_in_data_collection", 50),
